@@ -234,6 +234,59 @@ def job(payload):
     return out
 
 
+def job_cli(payload):
+    """The command line's own symbol line, for files of several machines listed in ONE run (in both orders): every line must carry
+    the index, value and size the library reports and the type / binding / visibility names of THAT file's machine."""
+    from vf.props import c19
+    seed, machines = payload
+    d = common.get_driver()
+    out = {"cli_runs": 0, "cli_lines": 0, "bad": []}
+    rng = random.Random(seed)
+    exe = os.path.join(common.VERIF, "build", common.VARIANT, "dwgrep", "dwgrep")
+    env = dict(os.environ); env.update(common.ASAN_ENV)
+    os.makedirs(os.path.join(common.RUN, "syms"), exist_ok=True)
+    made = []
+    try:
+        for m in machines:
+            syms = gen_symbols(rng, rng.choice(["small", "all"]))
+            cu = Die("compile_unit", [("name", "string", b"s.c")])
+            f = Forest([Unit(cu, 4, addr_size=8)], machine=m, elfclass=64, big=rng.random() < 0.3, symbols=syms)
+            w = dwgen.Writer(f)
+            abbrev, info = w.layout()
+            p = os.path.join(common.RUN, "syms", "c18cli-%d-%d.o" % (seed, m))
+            open(p, "wb").write(dwgen.build_elf(64, f.big, m, [(b".debug_abbrev", abbrev, 1), (b".debug_info", info, 1), (b".debug_str", b"\0", 1)], syms, etype=rng.choice([2, 3])))
+            r = d.run("symbol", inp="d:" + common.hx(p), fuel=0, max=2000000, timeout=600, deep=1)
+            if r["st"] != "done":
+                out["bad"].append(("symbol-query-failed", dict(file=p, st=r["st"], msg=r.get("msg")))); return out
+            made.append((p, [c19.elfsym(res[-1]) for res in r["res"]]))
+        keep = False
+        for order in (made, list(reversed(made))):
+            want = b"".join(p.encode() + b":\n" + line + b"\n" for p, lines in order for line in lines)
+            try:
+                pr = subprocess.run([exe, "-e", "symbol"] + [p for p, _ in order], stdout=subprocess.PIPE, stderr=subprocess.PIPE, env=env, timeout=300, stdin=subprocess.DEVNULL)
+            except subprocess.TimeoutExpired:
+                out["bad"].append(("cli-hang", dict(files=[p for p, _ in order]))); keep = True; break
+            out["cli_runs"] += 1
+            out["cli_lines"] += sum(len(l) for _, l in order)
+            if pr.returncode not in (0, 1, 2):
+                kind, key = common.classify_report(pr.stderr.decode("latin-1"), pr.returncode)
+                out["bad"].append(("cli-crash:" + key, dict(files=[p for p, _ in order], stderr=pr.stderr.decode("latin-1")[-1500:]))); keep = True; break
+            if pr.stdout != want:
+                gl, wl = pr.stdout.split(b"\n"), want.split(b"\n")
+                k = next((i for i, (a, b) in enumerate(zip(gl, wl)) if a != b), min(len(gl), len(wl)))
+                out["bad"].append(("cli-symbol-line-differs-from-the-library's-values", dict(machines=machines, files=[os.path.basename(p) for p, _ in order], line=k,
+                                                                                               got=repr(gl[k][:200]) if k < len(gl) else None, want=repr(wl[k][:200]) if k < len(wl) else None)))
+                keep = True; break
+        if not keep:
+            for p, _ in made:
+                os.unlink(p)
+    except common.DriverCrash as ex:
+        out["bad"].append(("crash:" + getattr(ex, "key", ex.kind), dict(what=str(payload)[:200], report=ex.report[-3000:])))
+    except common.DriverTimeout:
+        out["bad"].append(("hang", dict(what=str(payload)[:200])))
+    return out
+
+
 def job_cross(payload):
     """Machine-specific codes of different machines are never equal; common codes are."""
     d = common.get_driver()
@@ -284,6 +337,13 @@ def run(chk):
     jobs += [("file", p) for p, linked in corpus if linked][::(6 if quick else 1)]
     zcheck.consume(chk, pool.map(job, jobs), tot, ctx, samples, "C18")
     zcheck.consume(chk, pool.map(job_cross, [0]), tot, ctx, samples, "C18 cross")
+    arch = [em[a] for a in ("ARM", "SPARC", "PARISC", "MIPS", "X86_64", "PPC64", "SPARCV9", "ALPHA", "AARCH64") if a in em]
+    cli = []
+    for rep in range(12 if quick else 200):
+        ms = list(arch)
+        rng.shuffle(ms)
+        cli.append((chk.seed * 49979687 + rep, ms[:rng.randint(2, 4)]))
+    zcheck.consume(chk, pool.map(job_cli, cli), tot, ctx, samples, "C18 cli")
     pool.finish()
     chk.cov.update({
         "evaluations": tot.get("symbols", 0) + tot.get("cross", 0),
@@ -292,6 +352,7 @@ def run(chk):
         "files": tot.get("files", 0), "generated_files": tot.get("machines", 0), "machines_in_elf_h": len(machines),
         "constant_renderings_checked": tot.get("renderings", 0), "of_which_named_by_elf_h": tot.get("named", 0),
         "cross_machine_cells": tot.get("cross", 0), "ar_archives_of_generated_members_listed": tot.get("archives", 0), "renderings_relative_to_an_elf_h_range_marker_checked": tot.get("relative_renderings", 0), "runs_of_one_compiled_query_over_files_of_different_machines": tot.get("shared_query_runs", 0),
+        "command_line_runs_listing_files_of_several_machines": tot.get("cli_runs", 0), "command_line_symbol_lines_compared": tot.get("cli_lines", 0),
         "samples": samples[:6],
     })
     chk.assumptions += ["values of symbols defined in sections of ET_REL files are relocated by libdwfl and not judged; SHN_ABS/SHN_UNDEF symbols and all symbols of ET_EXEC/ET_DYN files are",
